@@ -292,9 +292,11 @@ def run_entry(check: Check, repo: Repo, entry: str, allowed: set[str], rule: str
             check.oblige(rule, site.func, f"assert {site.expr}: every ParserState the interpreter builds gets the Parser in that field (premise re-checked by role binding)", True)
             continue
         tri = TRIAGE.get(site.key())
+        stale = None
         if tri and tri[0] == "SAFE" and not triage_trusted(repo, site.key()):
-            check.defer_error(f"{site.func}: the code it depends on has changed since the site `{site.expr}` ({site.exc}) was triaged SAFE (\"{tri[1][:80]}...\"); the reason has to be re-read against the new code (tools/retriage.py)")
-            continue
+            # the reason was written for other code: it is void, and the site is decided like any undischarged one
+            stale = f"{site.func}: the code it depends on has changed since the site `{site.expr}` ({site.exc}) was triaged SAFE (\"{tri[1][:80]}...\"); the reason has to be re-read against the new code (tools/retriage.py)"
+            tri = None
         if tri and tri[0] == "SAFE":
             check.oblige(rule, site.func, f"{site.kind} {site.expr}: triaged safe — {tri[1]}", True)
             check.count("triaged_safe_sites")
@@ -315,6 +317,10 @@ def run_entry(check: Check, repo: Repo, entry: str, allowed: set[str], rule: str
         qual = site.func.split("::")[-1]
         got = cov.get((qual, site.kind, site.expr)) or (cov.get((qual, site.kind, site.expr[:80])) if site.kind == "call" else None)
         chain_txt = " > ".join(c.split("::")[-1] for c in chain)
+        if got and got["raise"] > 0 and any(k.startswith("raise:") for k in got):
+            # only what the site itself is charged with counts: a library error of a callee passing through a call
+            # expression (`chr(_hex(digits, token))` with _hex refusing the digits) is not the site's ValueError
+            got = dict(got, **{"raise": sum(v for k, v in got.items() if k.startswith("raise:") and _exc_matches(k[6:], site.exc)), "ok": got["ok"] + sum(v for k, v in got.items() if k.startswith("raise:") and not _exc_matches(k[6:], site.exc))})
         if got and got["raise"] == 0 and got["ok"] > 0:
             check.oblige(rule, site.func, f"{site.kind} {site.expr}: executed {got['ok']} times on the program model without raising", True)
             check.count("sites_discharged_on_the_model")
@@ -324,11 +330,23 @@ def run_entry(check: Check, repo: Repo, entry: str, allowed: set[str], rule: str
             sig = f"{site.exc} from {site.kind} {site.expr} can escape"
             check.oblige(rule, site.func, sig, False, finding=Finding(rule, site.func, sig, f"{site.exc} raised at {qual} ({site.kind}: {site.expr}) is not handled on the call chain {chain_txt}; the program model raises there on {got['raise']} of {got['raise'] + got['ok']} evaluations", {"chain": chain, "entry": entry}))
             continue
-        check.defer_error(f"{site.func}: {site.exc} at {site.kind} `{site.expr}` may escape on the call chain {chain_txt}; no guard idiom, rule or triage entry discharges it and the program model never evaluates it: not decided")
+        check.defer_error(stale or f"{site.func}: {site.exc} at {site.kind} `{site.expr}` may escape on the call chain {chain_txt}; no guard idiom, rule or triage entry discharges it and the program model never evaluates it: not decided")
     return len(sites), escaping
 
 
 _COV_DONE: dict[str, bool] = {}
+
+
+def _exc_matches(raised: str, charged: str) -> bool:
+    """Is an exception the model raised (by class name) one the site is charged with?"""
+    import builtins
+
+    if raised == charged or charged in ("Exception", "BaseException"):
+        return True
+    a, b = getattr(builtins, raised, None), getattr(builtins, charged, None)
+    if isinstance(a, type) and isinstance(b, type):
+        return issubclass(a, b) or issubclass(b, a)
+    return False
 
 
 def model_coverage(repo: Repo, entry: str) -> dict:
